@@ -1704,6 +1704,49 @@ class Evaluator:
         if name in ('list', 'tuple') and args:
             return args[0] if isinstance(args[0], TList) else TList(self.as_items(args[0]))
         if name == 'isinstance':
+            if len(args) == 2 and not isinstance(args[0], (Sym, TAlt)):
+                # a value whose class is known: decided by the class (tuples of classes: any of them)
+                def cls_targets(t_):
+                    if isinstance(t_, tuple) and t_ and t_[0] == 'class':
+                        return [t_[1].fq]
+                    if isinstance(t_, tuple) and t_ and t_[0] == 'builtin':
+                        return ['builtin:' + str(t_[1])]
+                    if isinstance(t_, TList) and all(not isinstance(x_, (RepL, AltL)) for x_ in t_.items):
+                        out_ = []
+                        for x_ in t_.items:
+                            r_ = cls_targets(x_)
+                            if r_ is None:
+                                return None
+                            out_ += r_
+                        return out_
+                    return None
+                tg = cls_targets(args[1])
+                v0 = args[0]
+                if tg is not None:
+                    if isinstance(v0, TObj):
+                        return TRUE if any(t_ == v0.cls.fq or (not t_.startswith('builtin:') and self.prog.is_subclass(v0.cls.fq, t_))
+                                           for t_ in tg) else FALSE
+                    if isinstance(v0, TStr):
+                        return TRUE if 'builtin:str' in tg else FALSE
+                    if v0 is TNone:
+                        return FALSE
+                    if isinstance(v0, (TList, TBlock)) and isinstance(v0, TList):
+                        return TRUE if 'builtin:list' in tg or 'builtin:tuple' in tg else FALSE
+            if len(args) == 2 and isinstance(args[0], Sym) and strip_opt(args[0].typ)[0] == 'cls' and strip_opt(args[0].typ)[1] in self.prog.classes:
+                # a symbolic value annotated with a class of the package, tested against one class or a tuple of classes
+                def targets_(t_):
+                    if isinstance(t_, tuple) and t_ and t_[0] == 'class':
+                        return [t_[1].fq]
+                    if isinstance(t_, TList) and all(isinstance(x_, tuple) and x_ and x_[0] == 'class' for x_ in t_.items):
+                        return [x_[1].fq for x_ in t_.items]
+                    return None
+                tg_ = targets_(args[1])
+                own_ = strip_opt(args[0].typ)[1]
+                if tg_ is not None:
+                    if any(own_ == t_ or self.prog.is_subclass(own_, t_) for t_ in tg_):
+                        return TRUE if args[0].typ[0] != 'opt' else c_not(self.is_none(args[0]))
+                    if not any(self.prog.is_subclass(t_, own_) for t_ in tg_):
+                        return FALSE        # an unrelated class: neither an instance of the annotated class nor None is one
             if len(args) == 2 and isinstance(args[0], Sym) and isinstance(args[1], tuple) and args[1] and args[1][0] == 'class':
                 if strip_opt(args[0].typ) == ('cls', args[1][1].fq) and args[0].typ[0] != 'opt':
                     return TRUE         # annotated with exactly that class (callers hand what the annotation says: C13 / C15)
